@@ -1,7 +1,190 @@
-import HalmosVerif.Spec.Evm
-namespace HalmosVerif.Props.C01
-open HalmosVerif.Spec
+/-
+Props.C01 — "Every reported execution path is a real EVM behaviour" — for the core machine (Model.Sevm, stage 1 of
+DESIGN §"Shared by C01, C02, C09, C10": stack, word instructions, PUSH/DUP/SWAP, PC, JUMP/JUMPI, JUMPDEST, calldata and
+transaction-environment reads, STOP/INVALID, RETURN/REVERT of zero bytes; every other opcode ends the path as *stuck*,
+which is an error report, never an outcome).
 
-theorem placeholder : Evm.ceil32 33 = 64 := by decide
+All theorems hold for EVERY program (`code : List Nat`, any length), EVERY fuel / number of steps, EVERY engine
+configuration (`--loop`, `--depth`), EVERY symbolic transaction environment `env`, EVERY sound simplifier `s`
+(`SimpSound s`: z3's `simplify` preserves meaning), EVERY standard interpretation `I` of variables and uninterpreted
+functions (`I.Std`: the abstractions `f_evm_*` mean the exact EVM operation), EVERY concrete initial frame related to
+the initial symbolic state, and — for soundness — EVERY oracle `o` whatsoever: nothing is assumed of the solver.
+
+The reference is `Spec.Evm.step` / `Spec.Evm.exec`. halmos does not model the 1024-item stack limit: the case that the
+concrete run overflows it is kept as an explicit disjunct.
+
+Known finding kept out of the statement by the tag: the end state `jumpi` produces when a JUMPI with a *symbolic*
+condition has an invalid destination (`Tag.jumpiInvalidSym`) claims the whole input set although the EVM falls through
+when the condition is false; the theorems speak about `Tag.normal` end states (see `tagged_end_unsound_witness`).
+-/
+import HalmosVerif.Lemmas.SevmExplore
+import HalmosVerif.Lemmas.WordStd
+
+namespace HalmosVerif.Props.C01
+open HalmosVerif.Model HalmosVerif.Model.Sevm HalmosVerif.Spec HalmosVerif.Lemmas.Sevm HalmosVerif.Lemmas.Word
+
+/-! ### the ingredients, re-exported so that they are audited with the property -/
+
+/-- `Exec.check` answers `unsat` only for conditions no valuation of the path satisfies, provided the solver's
+    `unsat` answers are right (`OracleSound`): the literal-false, negation-in-path and solver cases. -/
+theorem exCheck_unsat_sound {s : Simp} (hs : SimpSound s) {o : Oracle} (ho : OracleSound o) {π : List B} {c : B}
+    (hc : c.WF) (h : exCheck s o π c = .unsat) (I : Interp) (hsat : Sat I π) : c.eval I = false :=
+  exCheck_sound hs ho hc h I hsat
+
+/-- the oracle hypothesis is satisfiable: a solver that always times out -/
+theorem unknown_oracle_sound : OracleSound (fun _ _ => .unknown) := oracleSound_unknown
+
+/-- a valid jump destination holds a JUMPDEST byte (so landing *after* it, as halmos does, skips exactly one no-op) -/
+theorem jumpdest_byte {code : List Nat} {d : Nat} (h : (Evm.validJumpdests code).contains d = true) :
+    (code[d]?).getD 0 = 0x5b := jumpdest_opcode h
+
+/-- **step_sound.** One dispatch step of `SEVM.run`, any opcode, any oracle: for a concrete frame `f` related to the
+    symbolic state `st` under a valuation `I` of its path (stack within the EVM limit),
+    * every successor whose path `I` satisfies is related to a frame the concrete machine reaches from `f`
+      (one `Evm.step`; two for a taken jump, which lands after the JUMPDEST);
+    * every untagged end state reporting the EVM outcome `h` has `Evm.step p w f = .halt w h`. -/
+theorem step_sound {I : Interp} {env : Env} {code : List Nat} {p : Evm.Params} {w : Evm.World} {s : Simp}
+    {o : Oracle} {cfg : Cfg} {st : SState} {f : Evm.Frame} (hs : SimpSound s) (hI : I.Std)
+    (hR : R I env code p st f) (hsat : Sat I st.path) (hl : f.stack.length ≤ 1024) :
+    (∀ st' ∈ (step s o cfg env code st).next, Sat I st'.path →
+        ∃ f', CReach p w f f' ∧ R I env code p st' f') ∧
+    (∀ e ∈ (step s o cfg env code st).ends, e.tag = .normal → ∀ h, e.out = .halt h →
+        Evm.step p w f = .halt w h) :=
+  Lemmas.Sevm.step_sound hs hI hR hsat hl
+
+/-! ### the property -/
+
+/-- **C01.sound.** Every untagged end state `e` of `run` that reports an EVM outcome `h`, and every valuation `I`
+    satisfying its path conditions: the concrete machine, started in any frame `f0` related to the initial state,
+    reaches a frame at which `Evm.step` halts with exactly `h` and the world untouched — or its stack overflows. -/
+theorem sound {s : Simp} (hs : SimpSound s) (o : Oracle) (cfg : Cfg) (env : Env) (code : List Nat) (fuel : Nat)
+    (p : Evm.Params) (w : Evm.World) (e : EndState) (he : e ∈ (run s o cfg env code fuel).ends)
+    (htag : e.tag = .normal) (h : Evm.Halt) (hout : e.out = .halt h) (I : Interp) (hI : I.Std) (f0 : Evm.Frame)
+    (hR0 : R I env code p initState f0) (hsat : Sat I e.st.path) :
+    (∃ f, CReach p w f0 f ∧ Evm.step p w f = .halt w h) ∨
+    (∃ f, CReach p w f0 f ∧ f.stack.length > 1024) := by
+  have hgood := explore_sound (o := o) (cfg := cfg) (env := env) (code := code) (p := p) (w := w) hs fuel 0
+    [initState] {} (by
+      intro st hm
+      rw [List.mem_singleton] at hm
+      subst hm; exact goodState_init)
+    (by intro e hm; cases hm)
+  exact hgood e he htag h hout I hI f0 hR0 hsat
+
+/-- **C01.sound, as a terminating run.** The reported outcome is the result of `Evm.exec` on the whole program
+    (for some amount of fuel — the statement bounds nothing), unless the concrete run dies of stack overflow. -/
+theorem sound_exec {s : Simp} (hs : SimpSound s) (o : Oracle) (cfg : Cfg) (env : Env) (code : List Nat) (fuel : Nat)
+    (p : Evm.Params) (w : Evm.World) (e : EndState) (he : e ∈ (run s o cfg env code fuel).ends)
+    (htag : e.tag = .normal) (h : Evm.Halt) (hout : e.out = .halt h) (I : Interp) (hI : I.Std) (f0 : Evm.Frame)
+    (hR0 : R I env code p initState f0) (hsat : Sat I e.st.path) :
+    (∃ n, Evm.exec p n w f0 = some (w, h)) ∨ (∃ n, Evm.exec p n w f0 = some (w, .stackOverflow)) := by
+  rcases sound hs o cfg env code fuel p w e he htag h hout I hI f0 hR0 hsat with ⟨f, hr, hstep⟩ | ⟨f, hr, hov⟩
+  · exact Or.inl (exec_of_reach hr hstep)
+  · exact Or.inr (exec_of_reach hr (evm_overflow hov))
+
+/-- the initial state of `run` -/
+example : initState = ⟨0, [], [], [], []⟩ := rfl
+
+/-! ### non-vacuity: a branching program, a concrete oracle, an instance of `R` -/
+
+/-- `PUSH1 4; CALLDATALOAD; PUSH1 42; EQ; PUSH1 10; JUMPI; STOP; JUMPDEST; INVALID` -/
+def exCode : List Nat := [0x60, 4, 0x35, 0x60, 42, 0x14, 0x60, 10, 0x57, 0x00, 0x5b, 0xfe]
+
+/-- selector `12345678` followed by the 32-byte argument 42 -/
+def exCalldata : List Nat := [0x12, 0x34, 0x56, 0x78] ++ List.replicate 31 0 ++ [42]
+
+/-- the symbolic transaction: the first argument is the variable `x`; every other calldata word is what the bytes say -/
+def exEnv : Env where
+  caller := .var "msg_sender" 160
+  origin := .var "tx_origin" 160
+  callvalue := .var "msg_value" 256
+  address := .lit 160 0x1000
+  cd := fun off => if off = 4 then .var "x" 256 else .lit 256 (Evm.bytesToNat (Evm.readBytes exCalldata off 32))
+  cdSize := 36
+
+/-- the valuation `x ↦ 42`, `msg_sender ↦ 0xabc`, everything else 0; arithmetic abstractions standard -/
+def exI : Interp := Interp.std (fun x _ => if x = "x" then 42 else if x = "msg_sender" then 0xabc else 0)
+  (fun _ => false) (fun _ _ _ _ => 0) (fun _ _ _ => 0)
+
+theorem exI_std : exI.Std := Interp.std_isStd _ _ _ _
+
+def exP : Evm.Params := { origin := 0 }
+def exW : Evm.World := { code := [], storage := [], transient := [], balance := [] }
+def exF0 : Evm.Frame := { this := 0x1000, caller := 0xabc, value := 0, calldata := exCalldata, code := exCode }
+
+/-- an oracle that never answers (every query `unknown`): sound, and the worst case for exploration -/
+def exOracle : Oracle := fun _ _ => .unknown
+
+def exRes : Result := run foldSimp exOracle {} exEnv exCode 100
+
+/-- the model explores both branches: STOP at pc 9 under `¬(x = 42)`, INVALID at pc 11 under `x = 42`; no flag -/
+example : exRes.ends.map (fun e => (e.st.pc, e.out, e.tag, e.st.path)) =
+    [(9, .halt (.success []), .normal, [.not (.cmp .eq (.var "x" 256) (.lit 256 42))]),
+     (11, .halt .invalidOpcode, .normal, [.cmp .eq (.var "x" 256) (.lit 256 42)])] ∧
+    exRes.boundedLoops = [] ∧ exRes.depthCut = false ∧ exRes.outOfFuel = false := by
+  decide +kernel
+
+/-- the simulation relation holds between the initial symbolic state and the concrete initial frame -/
+theorem exR : R exI exEnv exCode exP initState exF0 := by
+  refine ⟨rfl, rfl, StackRel.nil, ⟨?_, ?_, ?_, ?_, ?_, rfl⟩,
+    ⟨fun _ h => absurd h List.not_mem_nil, fun _ _ h => absurd h List.not_mem_nil⟩⟩
+  · exact ⟨(by decide : 0 < 160), (by decide : 160 ≤ 256), by decide +kernel⟩
+  · exact ⟨(by decide : 0 < 160), (by decide : 160 ≤ 256), by decide +kernel⟩
+  · exact ⟨(by decide : 0 < 256), (by decide : 256 ≤ 256), by decide +kernel⟩
+  · exact ⟨(by decide : 0 < 160), (by decide : 160 ≤ 256), by decide +kernel⟩
+  · intro off
+    show (exEnv.cd off).WF ∧ (exEnv.cd off).width = 256 ∧ _
+    by_cases h : off = 4
+    · subst h
+      exact ⟨(by decide : 0 < 256), rfl, by decide +kernel⟩
+    · have hcd : exEnv.cd off = .lit 256 (Evm.bytesToNat (Evm.readBytes exCalldata off 32)) := by
+        simp only [exEnv, h, ↓reduceIte]
+      rw [hcd]
+      refine ⟨(by decide : 0 < 256), rfl, ?_⟩
+      simp only [T.eval]
+      exact Nat.mod_eq_of_lt (push_value_lt _ _ 32 (Nat.le_refl _))
+
+/-- the INVALID end state is among the results -/
+theorem ex_end : ∃ e ∈ exRes.ends, e.tag = .normal ∧ e.out = .halt .invalidOpcode ∧
+    e.st.path = [.cmp .eq (.var "x" 256) (.lit 256 42)] := by
+  decide +kernel
+
+/-- `sound_exec` applied to the INVALID end state and the valuation `x ↦ 42`: all hypotheses are met, and the
+    conclusion is the concrete fact that the reference EVM ends in `invalidOpcode` on calldata `12345678 ‖ 42` -/
+example : (∃ n, Evm.exec exP n exW exF0 = some (exW, .invalidOpcode)) ∨
+    (∃ n, Evm.exec exP n exW exF0 = some (exW, .stackOverflow)) := by
+  obtain ⟨e, he, htag, hout, hp⟩ := ex_end
+  refine sound_exec foldSimp_sound exOracle {} exEnv exCode 100 exP exW e he htag .invalidOpcode hout exI exI_std
+    exF0 exR ?_
+  rw [hp]
+  exact sat_singleton.2 (by decide +kernel)
+
+/-- and the reference interpreter indeed says so (it is the first disjunct that holds) -/
+example : (Evm.exec exP 10 exW exF0).map (·.2) = some .invalidOpcode := by decide +kernel
+
+/-- the concretization map at work (`Path.concretization.substitution`): after the branch `x = 42` a second
+    `CALLDATALOAD 4` pushes the literal 42, so the second `EQ`/`JUMPI` is decided concretely — two end states, not three:
+    `PUSH1 4; CALLDATALOAD; PUSH1 42; EQ; PUSH1 10; JUMPI; STOP; JUMPDEST(10); PUSH1 4; CALLDATALOAD; PUSH1 42; EQ;
+     PUSH1 21; JUMPI; STOP; JUMPDEST(21); INVALID` -/
+example : (run foldSimp exOracle {} exEnv
+      [0x60, 4, 0x35, 0x60, 42, 0x14, 0x60, 10, 0x57, 0x00, 0x5b, 0x60, 4, 0x35, 0x60, 42, 0x14, 0x60, 21, 0x57, 0x00,
+       0x5b, 0xfe] 100).ends.map (fun e => (e.st.pc, e.out, e.st.path, e.st.subst)) =
+    [(9, .halt (.success []), [.not (.cmp .eq (.var "x" 256) (.lit 256 42))], []),
+     (22, .halt .invalidOpcode, [.cmp .eq (.var "x" 256) (.lit 256 42)], [(.var "x" 256, .lit 256 42)])] := by
+  decide +kernel
+
+/-! ### the tagged site is genuinely outside the theorem (known finding) -/
+
+/-- `PUSH1 4; CALLDATALOAD; PUSH1 1; AND; PUSH1 3; JUMPI; STOP`: symbolic condition, destination 3 is not a JUMPDEST -/
+def badCode : List Nat := [0x60, 4, 0x35, 0x60, 1, 0x16, 0x60, 3, 0x57, 0x00]
+
+/-- **tagged_end_unsound_witness.** With an oracle that cannot decide, the model (like the code) ends the *whole* state
+    with InvalidJumpDest and an empty path condition — tagged `jumpiInvalidSym`; for the input `x = 42` (condition
+    `42 & 1 = 0`) the reference EVM falls through to STOP. This is why `sound` is stated for untagged end states. -/
+theorem tagged_end_unsound_witness :
+    (run foldSimp exOracle {} exEnv badCode 100).ends.map (fun e => (e.out, e.tag, e.st.path)) =
+      [(.halt .invalidJump, .jumpiInvalidSym, [])] ∧
+    (Evm.exec exP 10 exW { exF0 with code := badCode }).map (·.2) = some (.success []) := by
+  decide +kernel
 
 end HalmosVerif.Props.C01
